@@ -74,6 +74,41 @@ func (p Path) Cmps() []Cmp {
 	return out
 }
 
+// ExpandedCmps is Cmps for acyclic paths with boolean phis looked through: a branch on
+// `pass := a && b && f() <= n` (a phi of a comparison and constants) contributes the comparison
+// that the path's own edge carried into the phi; feasible is false when the branch taken
+// contradicts a constant carried into the phi.
+func (p Path) ExpandedCmps() (out []Cmp, feasible bool) {
+	for _, e := range p.Edges {
+		cond, pol := e.If.Cond, e.Pol
+		for depth := 0; depth < 6; depth++ {
+			if u, ok := cond.(*ssa.UnOp); ok && u.Op == token.NOT {
+				cond, pol = u.X, !pol
+				continue
+			}
+			if ph, ok := cond.(*ssa.Phi); ok {
+				r := p.Resolve(ph)
+				if r == ssa.Value(ph) {
+					break
+				}
+				cond = r
+				continue
+			}
+			break
+		}
+		if b, ok := constBool(cond); ok {
+			if b != pol {
+				return nil, false
+			}
+			continue
+		}
+		if ifc, ok := cmpOf(CondEdge{&ssa.If{Cond: cond}, pol}); ok {
+			out = append(out, ifc)
+		}
+	}
+	return out, true
+}
+
 // Instrs lists the instructions executed along the path, in order.
 func (p Path) Instrs() []ssa.Instruction {
 	var out []ssa.Instruction
